@@ -4,7 +4,7 @@ import itertools
 ID = "C18"
 HARNESSES = [dict(name="upgrade", pkg="./pkg/upgrade/", test="TestVerifC18", timeout=900,
                   files=[("pkg/upgrade/zz_verif_c18_test.go", "harness/C18/zz_verif_c18_test.go")])]
-VARIANTS = ["repaired", "defective"]
+VARIANTS = ["repaired", "head1", "keeponly", "staleonly", "defective"]
 MODEL_NEEDS_IMPL = False
 RULE = ("history cases: an installed tree of 5 artifact paths (absent / regular incl. empty, modes incl. setuid, setgid, "
         "sticky, 0 / symlink to a regular file outside the artifact dirs, to another artifact path, chains through "
@@ -37,7 +37,7 @@ NP = 5
 NVER = 16   # version ids; the harness maps them to confusable strings (prefix / suffix / case / blank / +build / leading v)
 APPLY_FAIL = [1, 2, 3, 4, 5, 6, 7, 8]
 RB_FAIL = [11, 12, 13, 14, 15, 16, 17, 18]
-CRASH_A = [25, 26, 27, 28, 29, 30, 31, 32, 35, 35, 33, 34, 1, 2, 3, 4, 5, 7, 8, 51, 52, 53]
+CRASH_A = [25, 36, 36, 26, 27, 28, 29, 30, 31, 32, 35, 35, 33, 34, 1, 2, 3, 4, 5, 7, 8, 51, 52, 53]
 CRASH_R = [41, 42, 43, 44, 45, 11, 12, 13, 14, 15, 17, 18]
 MODES = ["0755", "0644", "755", "600", "4755", "e", "0750", "0"]
 FMODES = ["755", "644", "600", "4755", "2755", "1777", "6755", "750", "0", "444"]
@@ -146,7 +146,7 @@ def rand_rollback(rng):
 
 def rand_history(rng):
     ops = []
-    v0 = rng.randrange(NVER)
+    v0 = 63 if rng.random() < 0.04 else rng.randrange(NVER)   # 63 = never-upgraded box, no current-manifest.yaml
     guess = v0     # what the generator believes is installed (only steers the mix; the model decides)
     prevs = []
     gen = 0
@@ -178,7 +178,7 @@ def rand_history(rng):
                 kw["hook"] = rng.choice("hm")
             if rng.random() < 0.08:
                 kw["exp"] = str(rng.choice([guess, guess, rng.randrange(NVER)]))
-            if rng.random() < 0.12:
+            if rng.random() < 0.22:
                 kw["force"] = 1
             ops.append(mk_apply(to, arts, **kw))
             clean = not any(k in kw for k in ("fail", "crash", "ha", "ob", "sig", "tam", "hook")) and kw["prev"][-1] in "-o"
@@ -243,6 +243,26 @@ def systematic():
         out.append("h 1 %s ; %s ; %s" % (fs0, mk_apply(2, a2, sig=sig), mk_apply(2, a2)))
     for pv in ["2o", "1f", "1h", "1g", "1o", "0o"]:
         out.append("h 1 %s ; %s ; %s" % (fs0, mk_apply(2, a2, prev=pv), mk_rollback()))
+    # interrupted upgrade, then ForceRetry: the baseline stays the tree before the FIRST attempt
+    a2f = [(0, 20, "0755", "o"), (1, 21, "0644", "n")]
+    firsts = [dict(ob=[(1, "o")], fail=[12]), dict(ob=[(1, "o")], crash=51), dict(ob=[(0, "s")], fail=[11]), dict(crash=30),
+              dict(fail=[8, 12]), dict(ha="failed", fail=[18]), dict(crash=35), dict(crash=25), dict(crash=36), dict(crash=26),
+              dict(fail=[2])]
+    seconds = [(a2f, dict(ha="failed")), (a2f, dict()), (a2f, dict(ob=[(0, "o")])), (a2f, dict(crash=25)), (a2f, dict(crash=29)),
+               (a2f[:1], dict(fail=[8])), ([(0, 30, "0755", "v"), (2, 32, "0644", "n")], dict(ha="failed")),
+               ([(1, 31, "0644", "v")], dict(fail=[8, 12]))]
+    for f1 in firsts:
+        for arts2, f2 in seconds:
+            out.append("h 1 %s ; %s ; %s ; clear ; %s ; %s" % (fs0, mk_apply(2, a2f, **f1), mk_apply(2, arts2, force=1, **f2),
+                                                             mk_rollback(), mk_apply(2, a2f)))
+        out.append("h 1 %s ; %s ; %s ; %s ; %s" % (fs0, mk_apply(2, a2f, **f1), mk_rollback(), mk_rollback(fail=[18]), mk_rollback()))
+        out.append("h 1 %s ; %s ; %s ; %s ; %s ; clear ; %s" % (fs0, mk_apply(2, a2f, **f1), mk_apply(2, a2f, force=1, crash=25),
+                                                                mk_apply(2, a2f, force=1, ob=[(1, "o")], fail=[12]),
+                                                                mk_apply(3, a2f, force=1, ha="failed"), mk_rollback()))
+    # never-upgraded box (no current-manifest.yaml: version discovered from the binary = id 63)
+    out.append("h 63 %s ; %s ; %s ; %s" % (fs0, mk_apply(2, a2f, prev="63o"), mk_rollback(), mk_apply(2, a2f, prev="63o", ha="failed")))
+    out.append("h 63 %s ; %s ; %s ; %s" % (fs0, mk_apply(2, a2f, crash=36), mk_rollback(), mk_apply(2, a2f, force=1)))
+    out.append("h 63 %s ; %s ; %s" % (fs0, mk_apply(2, a2f, prev="1o"), mk_apply(2, a2f, crash=35)))
     # installed artifacts of every kind x what happens after the swap loop: what the path RESOLVES to must come back
     kinds = {"reg": "0:r10.4755", "link-out": "0:s100,100:r50.644", "link-art": "0:s3,3:r13.600",
              "link-art-in-tarball": "0:s1,1:r11.644", "chain": "0:s101,101:s100,100:r50.755", "chain-art": "0:s101,101:s3,3:r13.644",
@@ -393,27 +413,30 @@ def classify(case, impl, model):
     return "G", "outputs differ in length: impl=%r model=%r" % (impl, model)
 
 
+RESUMABLE_NOT = ("none", "completed", "rolled_back", "started")
+
+
+def jphase(seg):
+    return fields(seg).get("j", "none").split(":")[0]
+
+
 def signature(case, impl, models):
     """names the recorded defect that explains the first difference from the repaired model"""
     if case.startswith("name"):
         return None
-    si, sr = segs(impl), segs(models["repaired"])
+    si, sr, ops = segs(impl), segs(models["repaired"]), ops_of(case)
     for k, (a, b) in enumerate(zip(si, sr)):
         if a == b:
             continue
-        fa, fb = fields(a), fields(b)
-        if fa.get("fs") != fb.get("fs"):
-            ia, ib = fa.get("fs", "").split(","), fb.get("fs", "").split(",")
-            ok = len(ia) == len(ib) and fa["res"] in ("rb:ok", "err:rolledback", "rb:err", "err:rbfailed", "crash")
-            for x, y in zip(ia, ib):
-                if x == y:
-                    continue
-                if not (x.startswith("r") and y.startswith("r") and x.split(".")[0] == y.split(".")[0]
-                        and int(y.split(".")[1], 8) & 0o7000 and int(y.split(".")[1], 8) & 0o777 == int(x.split(".")[1], 8)):
-                    ok = False
-            return "rollback-drops-special-mode-bits" if ok else None
-        if fa.get("cur") != fb.get("cur") and fa["res"] in ("rb:ok", "rb:err", "crash", "err:rolledback", "err:rbfailed"):
-            return "rollback-keeps-current-manifest"
+        # the defect may act at an earlier operation whose own line is still identical (the overwritten snapshot
+        # only shows when a later rollback uses it): look at every operation up to the first difference
+        for q in range(1, min(k, len(ops) - 1) + 1):
+            prev = jphase(sr[q - 1])
+            op = ops[q]
+            if op.startswith("rollback") and prev == "started" and fields(sr[q])["res"] == "rb:err":
+                return "rollback-accepts-journal-without-snapshot"
+            if op.startswith("apply") and " force=1 " in op and prev not in RESUMABLE_NOT:
+                return "forceretry-resnapshots-interrupted-upgrade"
         return None
     return None
 
